@@ -238,4 +238,184 @@ theorem unionOfFlat_sem (l : List RC) (res : VC) (h : unionOfFlat l = .ok res) (
           rw [hflat, g3 p hp (hreg.mono hsub)]
           exact anyAllows_eq_of_mem (by intro c; simp [mem_sortRCs]) p
 
+/-! ### totality of the merge loop -/
+
+/-- no member's lower bound is a local build -/
+def NoLocalLower (l : List RC) : Prop := ∀ c ∈ l, ∀ m, c.min = some m → m.isLocal = false
+
+theorem isAdjacentTo_edgesTouch {a b : VRange} (h : a.isAdjacentTo b = true) : VRange.edgesTouch a b = true := by
+  unfold VRange.isAdjacentTo at h
+  unfold VRange.edgesTouch
+  cases he : optVerEq a.max b.min
+  · simp [he] at h
+  · rw [he] at h
+    cases hia : a.imax <;> cases hib : b.imin <;> simp [hia, hib] at h ⊢
+
+/-- whenever the merge loop decides to merge (`allows_any` or adjacent), `a.union(b)` is a single member -/
+theorem rcUnionSingle_some (x y : RC) (hx : x.WF) (hy : y.WF)
+    (hnl : ∀ m, x.min = some m → m.isLocal = false)
+    (any : Bool) (hany : RC.allowsAny x y = .ok any)
+    (hm : (!any && !(x.view.isAdjacentTo y.view)) = false) :
+    ∃ u, rcUnionSingle x y = .ok (some u) ∧ (u.min = x.min ∨ u.min = y.min) := by
+  cases x with
+  | ver a =>
+    simp only [rcUnionSingle]
+    by_cases h1 : y.allows a = true
+    · exact ⟨y, by simp [h1], Or.inr rfl⟩
+    · simp only [h1, Bool.false_eq_true, if_false]
+      -- `a.allows y.min` must hold
+      have key : ∃ m, y.min = some m ∧ a.allows m = true := by
+        cases hb : any with
+        | true =>
+          rw [hb] at hany
+          cases y with
+          | ver b =>
+            simp only [RC.allowsAny, RC.intersect, RC.verIntersectVer, bind, Except.bind, pure, Except.pure] at hany
+            by_cases h2 : a.allows b = true
+            · exact ⟨b, rfl, h2⟩
+            · have h3 : b.allows a = false := by simpa [RC.allows] using h1
+              simp [h2, h3, VC.isEmpty] at hany
+          | rng r =>
+            simp only [RC.allowsAny, RC.intersect, RC.rngIntersectVer, bind, Except.bind, pure, Except.pure] at hany
+            have h3 : r.allows a = false := by simpa [RC.allows] using h1
+            simp only [h3, Bool.false_eq_true, if_false] at hany
+            cases hm' : r.min with
+            | none => simp [hm', VC.isEmpty] at hany
+            | some m =>
+              simp only [hm'] at hany
+              by_cases h4 : (m.isLocal && a.allows m) = true
+              · simp only [Bool.and_eq_true] at h4; exact ⟨m, hm', h4.2⟩
+              · simp [h4, VC.isEmpty] at hany
+        | false =>
+          rw [hb] at hm
+          simp only [Bool.not_false, Bool.true_and, Bool.not_eq_false'] at hm
+          simp only [VRange.isAdjacentTo, RC.view, RC.max, RC.imax] at hm
+          cases hmin : y.min with
+          | none => simp [hmin, optVerEq] at hm
+          | some m =>
+            simp only [hmin, optVerEq] at hm
+            by_cases he : Version.eqv a m = true
+            · have hmwf : m.wf = true := hy.wfB m (by simp [RC.bounds, RC.view, VRange.bounds, hmin])
+              exact ⟨m, rfl, Version.allows_of_vk_eq hx hmwf ((eqv_iff _ _).1 he).symm⟩
+            · simp [he] at hm
+      obtain ⟨m, hm1, hm2⟩ := key
+      simp only [hm1, hm2, if_true]
+      exact ⟨_, rfl, Or.inr (by simp [RC.min, hm1])⟩
+  | rng r =>
+    cases y with
+    | ver v =>
+      simp only [rcUnionSingle]
+      by_cases h1 : r.allows v = true
+      · exact ⟨.rng r, by simp [h1], Or.inl rfl⟩
+      · simp only [h1, Bool.false_eq_true, if_false]
+        by_cases h2 : optVerEq (some v) r.min = true
+        · exact ⟨.rng ⟨r.min, r.max, true, r.imax⟩, by simp [h2], Or.inl rfl⟩
+        · simp only [h2, Bool.false_eq_true, if_false]
+          have h3 : optVerEq (some v) r.max = true := by
+            cases hb : any with
+            | true =>
+              rw [hb] at hany
+              simp only [RC.allowsAny, Except.ok.injEq, Bool.or_eq_true] at hany
+              rcases hany with hany | hany
+              · exact absurd hany h1
+              · cases hm' : r.min with
+                | none => simp [hm'] at hany
+                | some m =>
+                  simp only [hm', Bool.and_eq_true] at hany
+                  have := hnl m (by simp [RC.min, hm'])
+                  rw [this] at hany; simp at hany
+            | false =>
+              rw [hb] at hm
+              simp only [Bool.not_false, Bool.true_and, Bool.not_eq_false'] at hm
+              simp only [VRange.isAdjacentTo, RC.view, RC.min, RC.imin, RC.max, RC.imax] at hm
+              cases he : optVerEq r.max (some v)
+              · simp [he] at hm
+              · rw [VRange.optVerEq_comm]; exact he
+          exact ⟨.rng ⟨r.min, r.max, r.imin, true⟩, by simp [h3], Or.inl rfl⟩
+    | rng s =>
+      have hc : (!(VRange.edgesTouch r s) && (s.isStrictlyLower r || r.isStrictlyLower s)) = false := by
+        cases hb : any with
+        | true =>
+          rw [hb] at hany
+          simp only [RC.allowsAny, VRange.isStrictlyHigher, Except.ok.injEq, Bool.not_eq_true'] at hany
+          simp [hany]
+        | false =>
+          rw [hb] at hm
+          simp only [Bool.not_false, Bool.true_and, Bool.not_eq_false', RC.view_rng] at hm
+          simp [isAdjacentTo_edgesTouch hm]
+      refine ⟨_, VRange.rcUnionSingle_rng_some r s hc, ?_⟩
+      simp only [RC.min, VRange.hull]
+      cases r.allowsLower s <;> simp
+
+theorem mergeLoop_total : ∀ (l acc : List RC), Good (l ++ acc) → NoLocalLower (l ++ acc) →
+    ∃ res, mergeLoop l acc = .ok res
+  | [], acc, _, _ => ⟨_, rfl⟩
+  | c :: rest, [], hg, hn => by
+    simp only [mergeLoop]
+    exact mergeLoop_total rest [c] (hg.mono (by simp; grind)) (fun x hx => hn x (by simp at hx ⊢; grind))
+  | c :: rest, last :: more, hg, hn => by
+    obtain ⟨any, hany⟩ := RC.allowsAny_ok last c
+    simp only [mergeLoop, hany, bind, Except.bind]
+    have hl : last ∈ (c :: rest) ++ last :: more := by simp
+    have hc : c ∈ (c :: rest) ++ last :: more := by simp
+    by_cases hb : (!any && !(last.view.isAdjacentTo c.view)) = true
+    · simp only [hb, if_true]
+      exact mergeLoop_total rest (c :: last :: more) (hg.mono (by simp; grind))
+        (fun x hx => hn x (by simp at hx ⊢; grind))
+    · simp only [hb, Bool.false_eq_true, if_false]
+      simp only [Bool.not_eq_true] at hb
+      obtain ⟨u, hu, humin⟩ := rcUnionSingle_some last c (hg.1 last hl).1 (hg.1 c hc).1 (hn last hl) any hany hb
+      simp only [hu]
+      obtain ⟨huwf, hut, hub, hex⟩ := RC.rcUnionSingle_exact last c (hg.1 last hl).1 (hg.1 c hc).1
+        (hg.1 last hl).2 (hg.1 c hc).2 (fun a b ha hb' => hg.2 a b (ha ▸ hl) (hb' ▸ hc)) u hu
+      have hg' : Good (rest ++ u :: more) := by
+        refine ⟨?_, ?_⟩
+        · intro x hx
+          simp only [List.mem_append, List.mem_cons] at hx
+          rcases hx with hx | rfl | hx
+          · exact hg.1 x (by simp [hx])
+          · exact ⟨huwf, hut⟩
+          · exact hg.1 x (by simp [hx])
+        · have key : ∀ a, RC.ver a ∈ rest ++ u :: more → RC.ver a ∈ (c :: rest) ++ last :: more := by
+            intro a ha
+            simp only [List.mem_append, List.mem_cons] at ha ⊢
+            rcases ha with ha | ha | ha
+            · exact Or.inl (Or.inr ha)
+            · have := rcUnionSingle_ver last c a (ha ▸ hu)
+              exact Or.inl (Or.inl this.symm)
+            · exact Or.inr (Or.inr ha)
+          intro a b ha hb'
+          exact hg.2 a b (key a ha) (key b hb')
+      have hn' : NoLocalLower (rest ++ u :: more) := by
+        intro x hx m hm
+        simp only [List.mem_append, List.mem_cons] at hx
+        rcases hx with hx | rfl | hx
+        · exact hn x (by simp [hx]) m hm
+        · rcases humin with h | h
+          · exact hn last hl m (h ▸ hm)
+          · exact hn c hc m (h ▸ hm)
+        · exact hn x (by simp [hx]) m hm
+      exact mergeLoop_total rest (u :: more) hg' hn'
+
+/-- **`VersionUnion.of` is total and preserves membership** for members none of whose lower bounds is a local
+build -/
+theorem unionOfFlat_total (l : List RC) (hg : Good l) (hn : NoLocalLower l) :
+    ∃ res, unionOfFlat l = .ok res ∧
+      ∀ p, p.wf = true → Regular (boundsOf l) p → res.allowsPlain p = anyAllows l p := by
+  have hex : ∃ res, unionOfFlat l = .ok res := by
+    unfold unionOfFlat
+    by_cases h1 : l.isEmpty = true
+    · exact ⟨.empty, by simp [h1]⟩
+    · by_cases h2 : l.any RC.isAny = true
+      · exact ⟨VC.any, by simp [h1, h2]⟩
+      · obtain ⟨merged, hm⟩ := mergeLoop_total (sortRCs l) []
+          (hg.mono (by intro c hc; simpa [mem_sortRCs] using hc))
+          (fun x hx => hn x (by simpa [mem_sortRCs] using hx))
+        simp only [h1, h2, Bool.false_eq_true, if_false, hm, bind, Except.bind]
+        cases merged with
+        | nil => exact ⟨_, rfl⟩
+        | cons a as => cases as <;> exact ⟨_, rfl⟩
+  obtain ⟨res, hres⟩ := hex
+  exact ⟨res, hres, (unionOfFlat_sem l res hres hg).2.2⟩
+
 end Poetry
